@@ -347,6 +347,12 @@ func (ss *SegStore) doLogEventFilling(ple *ParsedLogEvent, tsKey *string) (bool,
 	for i := uint16(0); i < ple.numCols; i++ {
 		cname := ple.allCnames[i]
 		ctype := ple.allCvalsTypeLen[i][0]
+		if ss.wipBlock.columnsInBlock[cname] {
+			// This event already gave the column a value: the document has the
+			// key twice (or {"a.b":1,"a":{"b":2}}). A record holds one value
+			// per column, so keep the first one.
+			continue
+		}
 		colWip, _, matchedCol = ss.initAndBackFillColumn(cname, ValTypeToSSDType(ctype), matchedCol)
 
 		switch ctype {
